@@ -65,6 +65,29 @@ pub struct CommitOracle {
 	pub check_agreement: bool,
 	/// (chan, side) -> the update batch covered by that side's latest commitment_signed contained (a fulfil, an add)
 	last_batch_fulfil_add: BTreeMap<(usize, usize), (bool, bool)>,
+	/// Fee changes beyond the library's buffers are generated: a refusal that is the protocol's own update_fee
+	/// race (the refused message crossed on the wire with an update of the refusing side) ends the case with the
+	/// pseudo-failure `excused-update-race` instead of a verdict; a refusal of a message whose sender had already
+	/// been told every update of the refusing side is still a failure.
+	pub allow_update_race: bool,
+	/// (from, to, update) -> step of its first emission / of its latest delivery
+	upd_emit: BTreeMap<(usize, usize, String), u64>,
+	upd_deliv: BTreeMap<(usize, usize, String), u64>,
+	/// (from, to) -> first-emission step of the latest add / fee update
+	last_upd_emit: BTreeMap<(usize, usize), u64>,
+	/// node -> (sender, rendering, emission step of the sender's latest update at that time) of the message it handled last
+	last_handled: BTreeMap<usize, (usize, String, u64)>,
+	link_cut_at: Vec<(usize, usize, u64)>,
+	/// per directed link, for every message in flight: emission step of the sender's latest update when it was emitted
+	in_flight_ctx: BTreeMap<(usize, usize), std::collections::VecDeque<u64>>,
+}
+
+fn upd_key(w: &Wire) -> Option<String> {
+	match w {
+		Wire::Add(m) => Some(format!("add {} {}", m.channel_id, m.htlc_id)),
+		Wire::Fee(m) => Some(format!("fee {} {}", m.channel_id, m.feerate_per_kw)),
+		_ => None,
+	}
 }
 
 fn fail(oracle: &str, detail: String) -> Failure {
@@ -117,7 +140,39 @@ impl CommitOracle {
 			allow_force_close: false,
 			check_agreement: true,
 			last_batch_fulfil_add: BTreeMap::new(),
+			allow_update_race: false,
+			upd_emit: BTreeMap::new(),
+			upd_deliv: BTreeMap::new(),
+			last_upd_emit: BTreeMap::new(),
+			last_handled: BTreeMap::new(),
+			link_cut_at: vec![],
+			in_flight_ctx: BTreeMap::new(),
 		}
+	}
+
+	/// Is the error `raiser` sent to `sender` the protocol's own update race? The refused message is the one
+	/// `raiser` handled last. Yes iff some add / fee update of `raiser` had not reached `sender` when `sender`
+	/// emitted its latest update before that message (it was emitted later, was still in flight, or the link was
+	/// cut in between so that an undelivered or uncommitted update was forgotten).
+	fn is_update_race(&self, raiser: usize, sender: usize) -> (bool, String) {
+		let Some((from, what, t)) = self.last_handled.get(&raiser).cloned() else { return (true, "no handled message recorded".into()) };
+		if from != sender {
+			return (true, "last handled message came from another node".into());
+		}
+		for ((f, to, k), emit) in self.upd_emit.iter() {
+			if *f != raiser || *to != sender {
+				continue;
+			}
+			let deliv = self.upd_deliv.get(&(*f, *to, k.clone())).cloned();
+			let unknown_to_sender = match deliv {
+				None => true,
+				Some(d) => d > t || self.link_cut_at.iter().any(|(a, b, c)| ((*a == raiser && *b == sender) || (*a == sender && *b == raiser)) && *c > *emit && *c < t),
+			};
+			if unknown_to_sender {
+				return (true, format!("{} of node {} (emitted at {}, delivered {:?}) was not known to node {} when it emitted its latest update at {} (refused message: {})", k, raiser, emit, deliv, sender, t, what));
+			}
+		}
+		(false, format!("refused message: {} (latest update of node {} emitted at {}); every update node {} had emitted had been delivered before", what, sender, t, raiser))
 	}
 
 	/// (channel index, side of the signer, commitment number) of a commitment transaction some node signed for
@@ -140,8 +195,9 @@ impl CommitOracle {
 
 	pub fn step(&mut self, sim: &Sim) -> CaseResult {
 		let evs = merged_since(sim, &mut self.cur_h, &mut self.cur_s);
-		for (_, ev) in evs {
+		for (at, ev) in evs {
 			match ev {
+				M::S(SEvent::Disconnect { a, b }) => self.link_cut_at.push((a, b, at)),
 				M::H(HEvent::SignCounterparty { node, tx, params, .. }) => {
 					let Some(fo) = params.funding_outpoint else { continue };
 					let Some(chan) = self.chan_by_funding(sim, fo.txid) else { continue };
@@ -166,6 +222,14 @@ impl CommitOracle {
 					}
 				},
 				M::S(SEvent::Emit { from, to, wire }) => {
+					if let Some(k) = upd_key(&wire) {
+						if !self.upd_emit.contains_key(&(from, to, k.clone())) {
+							self.upd_emit.insert((from, to, k), at);
+							self.last_upd_emit.insert((from, to), at);
+						}
+					}
+					let ctx_t = self.last_upd_emit.get(&(from, to)).cloned().unwrap_or(0);
+					self.in_flight_ctx.entry((from, to)).or_default().push_back(ctx_t);
 					let Some(cid) = wire.channel_id() else { continue };
 					let Some(chan) = sim.chans.iter().position(|c| c.id == cid) else { continue };
 					let side = Self::side_of(sim, chan, from);
@@ -221,6 +285,7 @@ impl CommitOracle {
 					}
 				},
 				M::S(SEvent::Dropped { from, to, wire }) => {
+					self.in_flight_ctx.entry((from, to)).or_default().pop_front();
 					match wire {
 						Wire::Commit(_) => {
 							self.queued.entry((from, to)).or_default().pop_front();
@@ -231,6 +296,11 @@ impl CommitOracle {
 					}
 				},
 				M::S(SEvent::Deliver { from, to, wire }) => {
+					if let Some(k) = upd_key(&wire) {
+						self.upd_deliv.insert((from, to, k), at);
+					}
+					let ctx_t = self.in_flight_ctx.entry((from, to)).or_default().pop_front().unwrap_or(0);
+					self.last_handled.insert(to, (from, wire.kind().to_string(), ctx_t));
 					if let Wire::Commit(m) = &wire {
 						let _ = self.queued.entry((from, to)).or_default().pop_front();
 						if let Some(chan) = sim.chans.iter().position(|c| c.id == m.channel_id) {
@@ -241,7 +311,15 @@ impl CommitOracle {
 				},
 				M::S(SEvent::ErrorAction { from, to, action, is_error_msg, .. }) => {
 					if is_error_msg && !self.allow_force_close {
-						let mut f = fail("protocol-error", format!("node {} raised an error towards node {} during honest operation: {}", from, to, action));
+						let mut race_note = String::new();
+						if self.allow_update_race {
+							let (race, why) = self.is_update_race(from, to);
+							if race {
+								return Err(fail("excused-update-race", format!("node {} refused a message of node {} ({}): {}", from, to, action, why)));
+							}
+							race_note = format!("; not an update race: {}", why);
+						}
+						let mut f = fail("protocol-error", format!("node {} raised an error towards node {} during honest operation: {}{}", from, to, action, race_note));
 						// listed finding, matched on its exact mechanism: the refused add travelled in the same
 						// commitment batch as the sender's own fulfil of an inbound HTLC (the sender's limit already
 						// counted the fulfilled value, the receiver does not until the removal is acknowledged)
